@@ -16,7 +16,7 @@ def scenarios(ctx):
         ast = B.random_ast(rng, rng.choice([0, 1, 1, 2, 2]))
         tick = rng.choice([100, 100, 250, 1000])
         cfg = {"tick_ms": tick, "fallback": rng.randint(1, 30), "recovery": rng.randint(1, 30), "check": rng.choice([1, 1, 2, 5, 10]),
-               "ast": ast, "expr": B.render(ast, full=rng.random() < 0.5)}
+               "ast": ast, "expr": B.render(ast, full=rng.random() < 0.5), "webhook": rng.random() < 0.3}
         lat = {100: (0, 0, 1, 5, 20), 250: (0, 0, 2, 8), 1000: (0, 0, 1, 2)}[tick]
         out.append({"id": "expr-%d" % i, "cfg": cfg, "steps": B.history(rng, 120 if quick else 400, tick, lat_ticks=lat)})
     return out
